@@ -796,7 +796,7 @@ pub fn run_case(case: Arc<Case>, root: PathBuf) {
         match case.settle {
             Settle::None => {}
             Settle::TtlThenGetAll => {
-                exec_op(0, &Op::Advance { ns: TTL_NS + 1 }, &mut h);
+                exec_op(0, &Op::Advance { ns: crate::c19::calib::ttl_ns(case.backend) + 1 }, &mut h);
             }
             Settle::ResetThenGetAll => {
                 exec_op(0, &Op::Reset, &mut h);
